@@ -21,9 +21,11 @@
    PROVED PART (C05_indexed_no_assignment_twice): for every such operator and ANY history of lookups a covered lookup is answered
    with exactly ONE row - the lookup itself - and an uncovered one with the operator's own rows: no assignment comes out twice
    (what the selection of the most general retrieved rows is for).
-   MISSING: which `yield_when_false` a cached row was recorded under, and the composition of the five call sites inside one
-   evaluator: covered by the correspondence check (cache on vs cache off vs specification), not by a theorem. *)
-From EQL Require Import Base Generated Memo_Facts IndexedCache IndexedCache_Facts IndexedCache_Sound IndexedMemo_Facts IndexedMemo_Den.
+   PROVED PART (C05_cached_evaluator): the operator of the last two theorems instantiated with the P-model's EVALUATOR of any basic
+   condition - their hypotheses are proved from the evaluator's partition theorem, nothing is left abstract.
+   MISSING: which `yield_when_false` a cached row was recorded under (the theorem caches the evaluation that yields false rows
+   too), and the composition of the five call sites inside one evaluator: covered by the correspondence check (cache on vs cache off vs specification), not by a theorem. *)
+From EQL Require Import Base Values Syntax Spec Generated Elab EvalPure EvalPure_Facts Memo_Facts IndexedCache IndexedCache_Facts IndexedCache_Sound IndexedMemo_Facts IndexedMemo_Den CachedEval.
 
 Theorem C05_memo_transparent_partial : forall (K R : Type) (keqb : K -> K -> bool),
   (forall a b, keqb a b = true <-> a = b) -> forall (f : K -> R) ks st,
@@ -178,6 +180,47 @@ Proof.
     apply existsb_exists in Hb as ([b o'] & Hin & S). exists b, o'. now split.
   - intros L A. apply once_of_apart. repeat (destruct A as [<-|A]; [vm_compute; reflexivity|]). destruct A.
   - repeat (apply Forall_cons; [split; [reflexivity|]; split; [cbn; tauto | repeat constructor; cbn; intuition discriminate]|]). apply Forall_nil.
+Qed.
+
+(* THE EVALUATOR AS THE CACHED OPERATOR.  The operator of the two theorems above is now the P-model's evaluator itself: [eval h dom c]
+   for ANY basic condition c (comparisons, memberships, expressions in condition position, and / or / not to any depth, nested
+   queries) over the variables U - the cache keys -, every domain duplicate-free and non-empty; rows and lookups are encoded for
+   the index by the positions of the values in their domains ([encB]: the index compares ids).  [rel]: every total assignment over
+   the domains with the truth of c; [f L]: the rows the evaluator yields, false rows included, under the incoming binding L,
+   restricted to U.  The hypotheses of C05_indexed_denotation and C05_indexed_no_assignment_twice are PROVED for it from the
+   evaluator's partition theorem (C02's invariant), so: for ANY history of incoming bindings (dicts over the domains that bind at
+   least one cache key) the cached evaluation of c answers rows that stand for exactly the total assignments agreeing with the
+   incoming binding, each with the truth value of c, none twice - and each answer is the evaluator's own rows or the single row
+   "the incoming binding itself". *)
+Theorem C05_cached_evaluator : forall h dom U c,
+  U <> [] -> (forall x, In x U -> NoDup (dom x)) -> (forall x, In x U -> dom x <> []) -> basic U c = true ->
+  forall bs : list binding, Forall (ok_lookup dom U) bs ->
+  Forall2 (fun rows L => (forall a o, den U (rel h dom U c) rows a o <-> (In (a, o) (rel h dom U c) /\ compatible U a L = true)) /\
+                         (rows = f h dom U c L \/ exists o, rows = [(L, o)]) /\ once U rows)
+          (cached_run_f (f h dom U c) (init U) (map (encB dom) bs)) (map (encB dom) bs).
+Proof. exact cached_eval_transparent. Qed.
+Print Assumptions C05_cached_evaluator.
+
+(* non-vacuity: or_(x.a == 1, x.a < y.a) over x in {o0, o1}, y in {o1, o2}; five incoming bindings, the third and the fifth are
+   covered by what the first two / the fourth stored and are answered by the index with one row *)
+Example C05_cached_evaluator_nonvacuous :
+  let h : heap := [[VInt 1]; [VInt 2]; [VInt 3]] in
+  let dom := fun k : Syntax.key => match k with 1 => [VObj 0; VObj 1] | 2 => [VObj 1; VObj 2] | _ => [] end in
+  let a t := TMap (MField 0) t in
+  let sc := SOr (SCmp Eq (a (TVar 1)) (TLit (VInt 1))) (SCmp Lt (a (TVar 1)) (a (TVar 2))) in
+  let bs : list binding := [[(2, VObj 1)]; [(1, VObj 0)]; [(1, VObj 0); (2, VObj 1)]; [(1, VObj 1)]; [(2, VObj 2); (1, VObj 1)]] in
+  exists ic, elab sc = Some ic /\ basic [1; 2] ic = true /\ Forall (ok_lookup dom [1; 2]) bs /\
+    cached_run_f (f h dom [1; 2] ic) (init [1; 2]) (map (encB dom) bs)
+      = [[([(1, 0); (2, 0)], 0); ([(1, 1); (2, 0)], 1)]; [([(1, 0)], 0)]; [([(1, 0); (2, 0)], 0)];
+         [([(2, 0); (1, 1)], 1); ([(2, 1); (1, 1)], 0)]; [([(2, 1); (1, 1)], 0)]] /\
+    (let s2 := fst (cached_step_f (f h dom [1; 2] ic) (fst (cached_step_f (f h dom [1; 2] ic) (init [1; 2]) [(2, 0)])) [(1, 0)]) in
+     fst (ic_check (impl s2) [(1, 0); (2, 0)]) = true).
+Proof.
+  cbv zeta. eexists. split; [vm_compute; reflexivity|]. split; [reflexivity|]. split; [|split; vm_compute; reflexivity].
+  repeat (apply Forall_cons; [split; [split; [repeat constructor; cbn; intuition discriminate|];
+                                      intros k v H; cbn in H; repeat (destruct H as [H|H]; [injection H as <- <-; cbn; tauto|]); destruct H
+                                     | reflexivity]|]).
+  apply Forall_nil.
 Qed.
 
 (* non-vacuity: a history with repeated lookups is answered from the memo and agrees with the uncached function *)
